@@ -908,6 +908,7 @@ def parse_scalar_obs(P: str) -> list[Ob]:
     obs.append(Ob(f"{P}.P.read.comments", "P", "Parser.parse_document on // lead / KEY::<scalar> // trail: the comment tokens' texts become the assignment's leading_comments / trailing_comment, the value is the token's value", [pd, ps, pv], make(lambda ctx: [f"with_comments({k!r})" for k in PS.KINDS] + ["trailing_comment_after_multiline_list('IDENTIFIER', 'NUMBER')", "trailing_comment_after_multiline_list('STRING', 'IDENTIFIER')"])))
     obs.append(Ob(f"{P}.P.read.expression", "P", "Parser.parse_section on KEY::A op B [op C] for each of the seven expression operators: the value is the operand and operator token texts concatenated in order", [ps, pv, "octave_mcp.core.parser:Parser.parse_flow_expression"], make(lambda ctx: [f"expression(({o!r},))" for o in PS.OPS] + ["expression(('FLOW', 'SYNTHESIS'))", "expression(('CONSTRAINT', 'ALTERNATIVE'))", "expression(('AT', 'FLOW'))"])))
     obs.append(Ob(f"{P}.P.read.section", "P", "Parser.parse_section on §7::NAME / indented KEY::<scalar> returns Section('7', NAME, [Assignment]); NAME[→§T]: / KEY::<scalar> returns Block(NAME, target T, [Assignment])", [ps, "octave_mcp.core.parser:Parser.parse_section_marker", pv], make(lambda ctx: [f"section_marker({k!r})" for k in PS.KINDS] + [f"block_target({k!r})" for k in PS.KINDS])))
+    obs.append(Ob(f"{P}.P.read.parent", "P", "which parent a field belongs to: a block / a §-section with two children and a column-0 comment line between them (a field commented out at the margin) - the second child, indented like the first or deeper (both widths symbolic), stays a child of the container and the comment leads it", [ps, "octave_mcp.core.parser:Parser.parse_section_marker", pv], make(lambda ctx: [f"children_around_comment({h!r}, {k!r})" for h in ("block", "section") for k in (PS.KINDS if ctx.thorough else ("IDENTIFIER", "NUMBER", "STRING"))])))
     obs.append(Ob(f"{P}.P.read.document", "P", "Parser.parse_document on ===DOC=== / KEY::<scalar> / ===END=== returns Document(DOC, [Assignment(key text, the scalar token's value)])", [pd, ps, pv], make(lambda ctx: [f"document({k!r})" for k in PS.KINDS])))
     return obs
 
@@ -1128,7 +1129,31 @@ def probe_frontmatter_body() -> tuple[bool, str]:
         l1 = sorted((w.get("line") - 5 if isinstance(w.get("line"), int) else None, w.get("column"), str(w.get("original"))) for w in w1 if w.get("type") == "normalization")
         if l0 != l1:
             bad.append(f"U+{ord(ch):04X}: receipts behind frontmatter {l1} (lines minus the 5 frontmatter lines), without {l0}")
-    return bool(bad), "; ".join(bad[:3]) or f"{len(LINE_BOUNDARY_CHARS)} line-boundary characters: body read identically with and without frontmatter"
+    # every SHAPE of frontmatter block (empty, one line, blank lines only, several lines, no blank line after it): the body is
+    # read the same and every receipt sits exactly `number of lines before the envelope` lower - the receipt must point at its
+    # own occurrence in the text that was submitted (C07)
+    body = '===D===\nL::x->y\nM::"""t"""\nN::a b c\n===END===\n'
+    d0, w0 = parse_with_warnings(body)
+    base = sorted((w.get("line"), w.get("column"), str(w.get("original"))) for w in w0 if isinstance(w.get("line"), int))
+    for fmx in ("---\n---\n", "---\n---\n\n", "---\n\n---\n", "---\n\n\n---\n\n", "---\na: 1\n---\n", "---\na: 1\nb: |\n  x\n\n  y\n---\n\n\n", "---\n# only a comment\n---\n"):
+        shift = fmx.count("\n")
+        try:
+            d1, w1 = parse_with_warnings(fmx + body)
+        except Exception as e:  # noqa: BLE001
+            bad.append(f"frontmatter {fmx!r}: {type(e).__name__}: {e}")
+            continue
+        got = sorted((w.get("line") - shift, w.get("column"), str(w.get("original"))) for w in w1 if isinstance(w.get("line"), int))
+        if got != base:
+            bad.append(f"frontmatter {fmx!r} ({shift} lines): receipts (line - {shift}, column, original) {got}, without frontmatter {base}")
+        text = fmx + body
+        tl = text.split("\n")
+        for w in w1:
+            o = w.get("original")
+            if w.get("type") == "normalization" and isinstance(o, str) and isinstance(w.get("line"), int) and isinstance(w.get("column"), int):
+                ln = tl[w["line"] - 1] if 0 < w["line"] <= len(tl) else ""
+                if not ln[w["column"] - 1:].startswith(o):
+                    bad.append(f"frontmatter {fmx!r}: receipt {o!r} at {w['line']}:{w['column']} does not point at its occurrence (that line is {ln!r})")
+    return bool(bad), "; ".join(bad[:3]) or f"{len(LINE_BOUNDARY_CHARS)} line-boundary characters, 7 frontmatter shapes: body read identically with and without frontmatter, receipts at their occurrences"
 
 
 def ob_frontmatter_split_join(ctx: Ctx) -> Outcome:
